@@ -57,6 +57,9 @@ def kind_of_detail(d):
     return "other:" + d[:30]
 
 
+LAST_PRINTS = {}
+
+
 def model_runs(chk, cfgs, canaries, module="RecVerifier", extra_ok=()):
     """runs the catalogue configurations and the canaries (3 TLC at a time); returns ({key: lines}, {canary: class})"""
     jobs = [("cat", k, c) for k, c in cfgs.items()] + [("can", k, c) for k, c in canaries.items()] + [("ok", c, c) for c in extra_ok]
@@ -79,6 +82,7 @@ def model_runs(chk, cfgs, canaries, module="RecVerifier", extra_ok=()):
             chk.add_tlc("%s %s" % (module, cfg), r)
             if what == "cat":
                 cats[key] = common.tagged(r.prints, "REPLAY")
+                LAST_PRINTS[key] = r.prints
     return cats, named
 
 
